@@ -4,7 +4,8 @@ import TR.Lemmas.TimeLimiter
 
 Quantification of every theorem: every configuration `cfg` (any fixed timeout, or a
 per-request timeout source with any default; both cancellation modes), every list of
-operations `ops` (any number of callers, each with its own timeout and its own scripted inner
+operations `ops` (any number of callers, each with its own timeout — any number of
+milliseconds, or `Duration::MAX` = `Tmo.max`, for which no deadline exists — and its own scripted inner
 call — any latency: below, at, above the timeout — and any outcome: ok / error / panic /
 never; any order of arrivals, first polls, further polls, drops of the call future and
 advances of the clock).  The model is deterministic: since the repair of the non-cancel
@@ -12,9 +13,12 @@ advances of the clock).  The model is deterministic: since the repair of the non
 
 Vocabulary (of `TR.Model.TimeLimiter` / `TR.Lemmas.TimeLimiter`): for the record `x` of a caller,
 `x.start` is the instant of its first poll, `x.doneAt = x.start + latency`,
-`x.deadline = x.start + x.tmo`, `x.wakeAt = min(done, deadline)` (`= deadline` for a
-never-completing inner call); `newEvents cfg s op` are the events `op` appends to the log in
-state `s`; `serialOf s c` is the serial number of `c`'s inner call.
+`x.deadline = x.start + x.tmo`, `x.unl`: the timeout is `Duration::MAX` (no deadline);
+`x.due t` = the deadline has been reached at `t` (`x.unl = false ∧ x.deadline ≤ t`: never, without a
+deadline); `x.awake t` = the inner call has finished by `t` or the deadline has been reached — for a
+call with a deadline that is `x.wakeAt ≤ t`, `x.wakeAt = min(done, deadline)` (`= deadline` for a
+never-completing inner call), see `awake_characterisation`; `newEvents cfg s op` are the events
+`op` appends to the log in state `s`; `serialOf s c` is the serial number of `c`'s inner call.
 -/
 namespace TR.Props.C06
 open TR TR.TimeLimiter
@@ -22,12 +26,15 @@ open TR TR.TimeLimiter
 /-! ## where the timeout and the deadline come from -/
 
 /-- The timeout of a call is captured when the call is made: the fixed value, or — with a
-per-request source — the request's own value (the configured default if it has none). -/
-theorem timeout_source (cfg : Cfg) (ops : List Op) (c : Nat) (tmo : Option Nat) (sc : Step)
+per-request source — the request's own value (the configured default if it has none); a number
+of milliseconds (`tmo := n`, `unl := false`) or `Duration::MAX` (`unl := true`: no deadline). -/
+theorem timeout_source (cfg : Cfg) (ops : List Op) (c : Nat) (tmo : Option Tmo) (sc : Step)
     (hnew : lookup (run cfg ops).callers c = none) :
     recordAfter cfg (run cfg ops) (.arrive c tmo sc) c
-      = some { tmo := if cfg.dyn then tmo.getD cfg.timeout else cfg.timeout, sc := sc } := by
-  exact recordAfter_arrive_new cfg _ c tmo sc hnew
+      = some (newCaller (if cfg.dyn then tmo.getD cfg.timeout else cfg.timeout) sc) ∧
+    (∀ n, newCaller (.ms n) sc = { tmo := n, unl := false, sc := sc }) ∧
+    (newCaller .max sc).unl = true := by
+  exact ⟨recordAfter_arrive_new cfg _ c tmo sc hnew, fun _ => rfl, rfl⟩
 
 /-- The deadline counts from the **first poll** of the call future (not from `call()`): the
 first poll calls the inner service (`inner_call` is among its events) and arms
@@ -37,21 +44,33 @@ theorem deadline_from_first_poll (cfg : Cfg) (ops : List Op) (c : Nat) (x : Call
     ∃ x', recordAfter cfg (run cfg ops) (.poll c) c = some x' ∧
       x'.start = (run cfg ops).now ∧ x'.deadline = (run cfg ops).now + x.tmo ∧
       x'.doneAt = (run cfg ops).now + x.sc.lat ∧
-      Ev.innerCall c (run cfg ops).serial ∈ newEvents cfg (run cfg ops) (.poll c) := by
+      Ev.innerCall c (run cfg ops).serial ∈ newEvents cfg (run cfg ops) (.poll c) ∧
+      (∀ t, x'.due t ↔ (x.unl = false ∧ (run cfg ops).now + x.tmo ≤ t)) := by
   have h := firstPoll_fields cfg (run cfg ops).now x hf
-  refine ⟨(pollC cfg (run cfg ops).now x).1, by simp [recordAfter_poll, hx], h.1, ?_, ?_, ?_⟩
+  refine ⟨(pollC cfg (run cfg ops).now x).1, by simp [recordAfter_poll, hx], h.1, ?_, ?_, ?_, ?_⟩
   · simp [Caller.deadline, h.1, h.2.1]
   · simp [Caller.doneAt, h.1, h.2.2.1]
-  · exact newEvents_called cfg _ c x hx h.2.2.2
+  · exact newEvents_called cfg _ c x hx h.2.2.2.1
+  · intro t; simp [Caller.due, Caller.deadline, h.1, h.2.1, h.2.2.2.2]
 
 /-! ## resolves by the deadline -/
 
+/-- `awake`, spelled out: for a call with a deadline it is "`now ≥ min(done, deadline)`"; for a
+call whose timeout is `Duration::MAX` it is "the inner call has finished", and such a call is
+never due. -/
+theorem awake_characterisation (x : Caller) (now : Nat) :
+    (x.unl = false → (x.awake now ↔ x.wakeAt ≤ now) ∧ (x.due now ↔ x.deadline ≤ now)) ∧
+    (x.unl = true → (x.awake now ↔ (x.sc.out ≠ .never ∧ x.doneAt ≤ now)) ∧ ¬ x.due now) := by
+  constructor
+  · intro hu; exact ⟨awake_iff_wakeAt x now hu, by simp [Caller.due, hu]⟩
+  · intro hu; exact ⟨awake_iff_done x now hu, not_due_of_unl hu now⟩
+
 /-- A caller whose call is unresolved and that is polled at any instant `≥ min(done, deadline)`
-resolves in that very poll: afterwards its call future
+(without a deadline: `≥ done`) resolves in that very poll: afterwards its call future
 is gone and the last event of the step is its `result`. -/
 theorem resolves_from_wake (cfg : Cfg) (ops : List Op) (c : Nat) (x : Caller)
     (hx : lookup (run cfg ops).callers c = some x) (hw : x.outer = .waiting)
-    (ht : x.wakeAt ≤ (run cfg ops).now) :
+    (ht : x.awake (run cfg ops).now) :
     (∃ x', recordAfter cfg (run cfg ops) (.poll c) c = some x' ∧ x'.outer = .gone) ∧
     ∃ pre r, newEvents cfg (run cfg ops) (.poll c) = pre ++ [Ev.result c r] := by
   have hinv := inv_reachable cfg ops c x hx
@@ -63,17 +82,17 @@ theorem resolves_from_wake (cfg : Cfg) (ops : List Op) (c : Nat) (x : Caller)
 /-- **No call outlives its deadline**: a poll at or after the deadline resolves the call. -/
 theorem resolves_by_deadline (cfg : Cfg) (ops : List Op) (c : Nat) (x : Caller)
     (hx : lookup (run cfg ops).callers c = some x) (hw : x.outer = .waiting)
-    (ht : x.deadline ≤ (run cfg ops).now) :
+    (ht : x.due (run cfg ops).now) :
     (∃ x', recordAfter cfg (run cfg ops) (.poll c) c = some x' ∧ x'.outer = .gone) ∧
     ∃ pre r, newEvents cfg (run cfg ops) (.poll c) = pre ++ [Ev.result c r] :=
-  resolves_from_wake cfg ops c x hx hw ((wakeAt_le x _).mpr (Or.inr ht))
+  resolves_from_wake cfg ops c x hx hw (Or.inr ht)
 
 /-- The wake set: a poll strictly before `min(done, deadline)` changes nothing and is silent,
 so `min(done, deadline)` is exactly the instant from which the caller has to be polled (the
 instant its waker must fire), and no call resolves early. -/
 theorem pending_before_wake (cfg : Cfg) (ops : List Op) (c : Nat) (x : Caller)
     (hx : lookup (run cfg ops).callers c = some x) (hw : x.outer = .waiting)
-    (ht : (run cfg ops).now < x.wakeAt) :
+    (ht : ¬ x.awake (run cfg ops).now) :
     recordAfter cfg (run cfg ops) (.poll c) c = some x ∧
     newEvents cfg (run cfg ops) (.poll c) = [] := by
   have hinv := inv_reachable cfg ops c x hx
@@ -87,26 +106,29 @@ after its deadline — nor at or after the instant its inner call finished. -/
 theorem settled_none_overdue (cfg : Cfg) (ops : List Op) (c : Nat) (x : Caller)
     (hs : Settled cfg (run cfg ops))
     (hx : lookup (run cfg ops).callers c = some x) (hw : x.outer = .waiting) :
-    (run cfg ops).now < x.wakeAt ∧ (run cfg ops).now < x.deadline := by
-  have h1 : (run cfg ops).now < x.wakeAt := by
-    apply Nat.lt_of_not_le
+    ¬ x.awake (run cfg ops).now ∧ ¬ x.due (run cfg ops).now ∧
+    (x.unl = false → (run cfg ops).now < x.wakeAt ∧ (run cfg ops).now < x.deadline) := by
+  have h1 : ¬ x.awake (run cfg ops).now := by
     intro hle
     obtain ⟨_, pre, r, hev⟩ := resolves_from_wake cfg ops c x hx hw hle
     rw [hs c] at hev
     simp at hev
-  refine ⟨h1, ?_⟩
-  apply Nat.lt_of_not_le
-  intro hle
-  have := (wakeAt_le x (run cfg ops).now).mpr (Or.inr hle)
-  omega
+  have h2 : ¬ x.due (run cfg ops).now := fun hd => h1 (Or.inr hd)
+  refine ⟨h1, h2, fun hu => ⟨?_, ?_⟩⟩
+  · apply Nat.lt_of_not_le
+    intro hle
+    exact h1 ((awake_iff_wakeAt x _ hu).mpr hle)
+  · apply Nat.lt_of_not_le
+    intro hle
+    exact h2 ⟨hu, hle⟩
 
 /-- Trace form: whenever a caller's history contains a result, its instant is `≥ min(done,
 deadline)`, and the result is an event of the log. -/
 theorem never_resolves_early (cfg : Cfg) (ops : List Op) (c : Nat) (x : Caller) (t : Nat) (r : CRes)
     (hx : lookup (run cfg ops).callers c = some x) (hr : (t, CEv.result r) ∈ x.hist) :
-    x.wakeAt ≤ t ∧ ∃ k, Ev.result c (r.toRes k) ∈ (run cfg ops).log := by
+    x.awake t ∧ ∃ k, Ev.result c (r.toRes k) ∈ (run cfg ops).log := by
   have hinv := inv_reachable cfg ops c x hx
-  refine ⟨(wakeAt_le x t).mpr (hinv.resLate t r hr), ?_⟩
+  refine ⟨hinv.resLate t r hr, ?_⟩
   obtain ⟨k, hk⟩ := hist_in_log cfg ops c x t _ hx hr
   exact ⟨k, hk⟩
 
@@ -144,7 +166,7 @@ in non-cancel mode through the oneshot. No timeout error. -/
 theorem result_if_earlier (cfg : Cfg) (ops : List Op) (c : Nat) (x : Caller)
     (hx : lookup (run cfg ops).callers c = some x) (hw : x.outer = .waiting)
     (hout : x.sc.out = .ok ∨ ∃ kd, x.sc.out = .err kd)
-    (hdone : x.doneAt ≤ (run cfg ops).now) (_hdl : (run cfg ops).now < x.deadline) :
+    (hdone : x.doneAt ≤ (run cfg ops).now) (_hdl : ¬ x.due (run cfg ops).now) :
     newEvents cfg (run cfg ops) (.poll c) =
       (if cfg.cancel then [Ev.innerDone c (serialOf (run cfg ops) c) x.sc.out] else []) ++
         [Ev.result c ((resOf x.sc.out).toRes (serialOf (run cfg ops) c))] :=
@@ -154,17 +176,59 @@ theorem result_if_earlier (cfg : Cfg) (ops : List Op) (c : Nat) (x : Caller)
 if a caller's history contains a timeout although its inner call completes (ok or error), then
 that inner call did **not** finish before the deadline (`deadline ≤ done`).  Equivalently:
 an inner call with `done < deadline` is never reported as timed out, whenever and however
-late the caller is polled, in both modes. -/
+late the caller is polled, in both modes.  A call without a deadline (`Duration::MAX`) is
+never reported as timed out at all. -/
 theorem intime_result_never_lost (cfg : Cfg) (ops : List Op) (c : Nat) (x : Caller) (t : Nat)
     (hx : lookup (run cfg ops).callers c = some x)
     (hout : x.sc.out = .ok ∨ ∃ kd, x.sc.out = .err kd)
-    (hr : (t, CEv.result .timeout) ∈ x.hist) : x.deadline ≤ x.doneAt := by
+    (hr : (t, CEv.result .timeout) ∈ x.hist) : x.unl = false ∧ x.deadline ≤ x.doneAt := by
   have hinv := inv_reachable cfg ops c x hx
   have hnp : x.sc.out ≠ .panic := by rcases hout with h | ⟨kd, h⟩ <;> simp [h]
   have hnn : x.sc.out ≠ .never := by rcases hout with h | ⟨kd, h⟩ <;> simp [h]
+  refine ⟨hinv.toUnl t hr hnp, ?_⟩
   rcases hinv.toLate t hr hnp with h | h
   · exact absurd h hnn
   · exact h
+
+/-- **`Duration::MAX` = no limit**: a call whose timeout is `Duration::MAX` (fixed, or its own
+per-request value) is never due, in both modes: whatever is in its history as a result was
+delivered when the inner call had finished (`≥ done`), and unless the inner call panics it is not a
+timeout; while the inner call is unfinished every poll is silent (however far the clock has
+advanced), and the first poll at or after `done` delivers the inner outcome (ok or error) with the
+inner call's serial.  Cancel mode never drops its inner call by itself. -/
+theorem unlimited_resolves_with_inner_result (cfg : Cfg) (ops : List Op) (c : Nat) (x : Caller)
+    (hx : lookup (run cfg ops).callers c = some x) (hu : x.unl = true) :
+    (∀ t, ¬ x.due t) ∧
+    (∀ t r, (t, CEv.result r) ∈ x.hist →
+        (x.sc.out ≠ .never ∧ x.doneAt ≤ t) ∧ (x.sc.out ≠ .panic → r ≠ .timeout)) ∧
+    (x.outer = .waiting → (x.sc.out = .never ∨ (run cfg ops).now < x.doneAt) →
+        recordAfter cfg (run cfg ops) (.poll c) c = some x ∧
+        newEvents cfg (run cfg ops) (.poll c) = []) ∧
+    (x.outer = .waiting → (x.sc.out = .ok ∨ ∃ kd, x.sc.out = .err kd) →
+        x.doneAt ≤ (run cfg ops).now →
+        newEvents cfg (run cfg ops) (.poll c) =
+          (if cfg.cancel then [Ev.innerDone c (serialOf (run cfg ops) c) x.sc.out] else []) ++
+            [Ev.result c ((resOf x.sc.out).toRes (serialOf (run cfg ops) c))]) := by
+  have hinv := inv_reachable cfg ops c x hx
+  refine ⟨not_due_of_unl hu, ?_, ?_, ?_⟩
+  · intro t r hr
+    constructor
+    · rcases hinv.resLate t r hr with h | h
+      · exact h
+      · exact absurd h (not_due_of_unl hu t)
+    · intro hnp hrt
+      subst hrt
+      have := hinv.toUnl t hr hnp
+      rw [this] at hu; cases hu
+  · intro hw hnot
+    apply pending_before_wake cfg ops c x hx hw
+    rw [awake_iff_done x _ hu]
+    intro h
+    rcases hnot with h' | h'
+    · exact h.1 h'
+    · omega
+  · intro hw hout hdone
+    exact inner_wins_whenever_observed cfg ops c x hx hw hout hdone
 
 /-- **Timeout error if the deadline is there first**: the deadline has been reached and the
 inner call has not finished (or never will): the poll reports `err:timeout` — in cancel mode
@@ -172,7 +236,7 @@ preceded, in the same step, by the drop of the inner future; in non-cancel mode 
 dropped. -/
 theorem timeout_if_later (cfg : Cfg) (ops : List Op) (c : Nat) (x : Caller)
     (hx : lookup (run cfg ops).callers c = some x) (hw : x.outer = .waiting)
-    (hdl : x.deadline ≤ (run cfg ops).now)
+    (hdl : x.due (run cfg ops).now)
     (hnot : x.sc.out = .never ∨ (run cfg ops).now < x.doneAt) :
     newEvents cfg (run cfg ops) (.poll c) =
       (if cfg.cancel then [Ev.innerDrop c (serialOf (run cfg ops) c)] else []) ++
@@ -196,13 +260,13 @@ every timeout in a caller's history is accompanied, at the same instant, by the 
 instant `≥` its deadline, and both are events of the log. (Not before: `pending_before_wake`.) -/
 theorem cancel_drops_at_deadline (cfg : Cfg) (hc : cfg.cancel = true) (ops : List Op) (c : Nat) (x : Caller)
     (hx : lookup (run cfg ops).callers c = some x) :
-    (x.outer = .waiting → x.deadline ≤ (run cfg ops).now →
+    (x.outer = .waiting → x.due (run cfg ops).now →
         (x.sc.out = .never ∨ (run cfg ops).now < x.doneAt) →
         newEvents cfg (run cfg ops) (.poll c)
           = [Ev.innerDrop c (serialOf (run cfg ops) c), Ev.result c .timeout] ∧
         ∃ x', recordAfter cfg (run cfg ops) (.poll c) c = some x' ∧ x'.inner = .dropped) ∧
     (∀ t, (t, CEv.result .timeout) ∈ x.hist →
-        (t, CEv.dropped) ∈ x.hist ∧ x.deadline ≤ t ∧ ∃ k, Ev.innerDrop c k ∈ (run cfg ops).log) := by
+        (t, CEv.dropped) ∈ x.hist ∧ x.due t ∧ ∃ k, Ev.innerDrop c k ∈ (run cfg ops).log) := by
   constructor
   · intro hw hdl hnot
     have h := timeout_if_later cfg ops c x hx hw hdl hnot
@@ -249,7 +313,7 @@ still running afterwards), and neither does a drop of the call future. -/
 theorem nocancel_timeout_leaves_task (cfg : Cfg) (hc : cfg.cancel = false) (ops : List Op) (c : Nat)
     (x : Caller)
     (hx : lookup (run cfg ops).callers c = some x) (hw : x.outer = .waiting)
-    (hdl : x.deadline ≤ (run cfg ops).now)
+    (hdl : x.due (run cfg ops).now)
     (hnot : x.sc.out = .never ∨ (run cfg ops).now < x.doneAt) :
     (∃ x', recordAfter cfg (run cfg ops) (.poll c) c = some x' ∧ x'.inner = .running) ∧
     (∃ x', recordAfter cfg (run cfg ops) (.drop c) c = some x' ∧ x'.inner = .running) := by
@@ -301,10 +365,10 @@ theorem builder_mode_last_wins (pre post : List Setter) (b : Bool)
     exact foldl_cancel_keep chain defaultCfg h
 
 /-- **The timeout source is the one given last, wherever the flag stands**: a fixed timeout
-`ms` after `timeout_duration(ms)`, the per-request source (default `d`) after `timeout_fn`, if
+`ms` (milliseconds or `Duration::MAX`) after `timeout_duration(ms)`, the per-request source (default `d`) after `timeout_fn`, if
 only `cancel_running_future` calls follow; so by `timeout_source` every call made through
 `build chain` captures exactly that timeout. -/
-theorem builder_source_last_wins (pre post : List Setter) (ms : Nat)
+theorem builder_source_last_wins (pre post : List Setter) (ms : Tmo)
     (hpost : ∀ s ∈ post, s.isSource = false) :
     ((build (pre ++ .dur ms :: post)).timeout = ms ∧ (build (pre ++ .dur ms :: post)).dyn = false) ∧
     ((build (pre ++ .fn ms :: post)).timeout = ms ∧ (build (pre ++ .fn ms :: post)).dyn = true) := by
@@ -380,6 +444,30 @@ example :
     build [] = { timeout := 5000, cancel := true, dyn := false } ∧
     (run (build [.cancel false, .fn 20]) [.arrive 1 (some 5) ⟨7, .ok⟩, .poll 1, .adv 5, .poll 1, .adv 2]).log
       = [.innerCall 1 0, .result 1 .timeout, .innerDone 1 0 .ok] := by
+  decide
+
+/-- `Duration::MAX` as "no limit" (the per-request `budget.unwrap_or(Duration::MAX)` idiom): three
+concurrent calls with budgets 20 ms / none / 200 ms, inner latency 50 ms each: timeout at 20, the
+inner results at 50 — in both modes; and a fixed timeout of `Duration::MAX` over an inner call that
+never completes is still pending after 10^24 ms, whatever the mode; builder chains carry `max`
+like any other timeout. -/
+example :
+    let ops := [Op.arrive 1 (some 20) ⟨50, .ok⟩, .arrive 2 (some .max) ⟨50, .ok⟩, .arrive 3 (some 200) ⟨50, .err 1⟩,
+                .poll 1, .poll 2, .poll 3, .adv 20, .poll 1, .poll 2, .poll 3, .adv 30, .poll 2, .poll 3]
+    let ops2 := [Op.arrive 1 none ⟨0, .never⟩, .arrive 2 none ⟨7, .ok⟩, .poll 1, .poll 2,
+                 .adv 1000000000000000000000000, .poll 1, .poll 2]
+    (run { timeout := 5, cancel := true, dyn := true } ops).log =
+      [.innerCall 1 0, .innerCall 2 1, .innerCall 3 2, .innerDrop 1 0, .result 1 .timeout,
+       .innerDone 2 1 .ok, .result 2 (.ok 1), .innerDone 3 2 (.err 1), .result 3 (.inner 1 2)] ∧
+    (run { timeout := 5, cancel := false, dyn := true } ops).log =
+      [.innerCall 1 0, .innerCall 2 1, .innerCall 3 2, .result 1 .timeout,
+       .innerDone 1 0 .ok, .innerDone 2 1 .ok, .innerDone 3 2 (.err 1), .result 2 (.ok 1), .result 3 (.inner 1 2)] ∧
+    (run { timeout := .max, cancel := true, dyn := false } ops2).log =
+      [.innerCall 1 0, .innerCall 2 1, .innerDone 2 1 .ok, .result 2 (.ok 1)] ∧
+    (run { timeout := .max, cancel := false, dyn := false } ops2).log =
+      [.innerCall 1 0, .innerCall 2 1, .innerDone 2 1 .ok, .result 2 (.ok 1)] ∧
+    build [.cancel false, .dur .max] = { timeout := .max, cancel := false, dyn := false } ∧
+    build [.fn .max, .cancel false, .dur 7] = { timeout := 7, cancel := false, dyn := false } := by
   decide
 
 end TR.Props.C06
